@@ -53,10 +53,10 @@ def classify(msg):
     return 'other'
 
 
-def run(path, rlimit=None, extra=(), timeout=900, threads=None):
+def run(path, rlimit=None, extra=(), timeout=900, threads=None, multiple_errors=20):
     r = VerusResult()
     r.path = path
-    cmd = [VERUS, path, '--output-json', '--time', '--multiple-errors', '20', '--error-format=json']
+    cmd = [VERUS, path, '--output-json', '--time', '--multiple-errors', str(multiple_errors), '--error-format=json']
     if rlimit:
         cmd += ['--rlimit', str(rlimit)]
     if threads:
